@@ -213,7 +213,7 @@ func mergeTrace(en *Env, cfg h.Cfg, t int) (merges, mok int) {
 	} else if t%2 == 0 {
 		u = mergeKeys(en, nkeys, false)
 	} else {
-		u = h.SimpleKeys(nkeys, 5+r.Intn(10))
+		u = h.PickKeys(r, nkeys, 5+r.Intn(10))
 	}
 	vs := h.NewValues()
 	e := h.NewEng(dir, en.Work+"/scratch", cfg, u, vs, en.T)
